@@ -124,6 +124,15 @@ class Sys:
             return routes['/stop/<script_path>'](m.group(1))
         return routes['/<script_path>'](url[1:])
 
+    def alive_names(self):
+        """names of the jobs whose (fake) thread has been started and has not finished: the harness's own view"""
+        out = []
+        for t in self.threads:
+            owner = getattr(t.target, '__self__', None)
+            if t.alive and isinstance(owner, job_control.Agent):
+                out.append(owner.name)
+        return out
+
     def names(self):
         jc = self.app._jobs
         cur = jc.get_current()
@@ -163,7 +172,8 @@ def apply(s, ev):
     before = s.names()
     nlog = len(s.log)
     ncalls = len(flaskstub.CALLS)
-    running_before = {n: jc.is_running(html.escape(n)) for n in table}
+    alive_before = s.alive_names()
+    running_before = {n: html.escape(n) in alive_before for n in table}
     active_before = jc.get_current()
     bg_before = list(jc.get_background())
     raised = None
@@ -251,6 +261,16 @@ def apply(s, ev):
             return ('%s-page-raises' % kind, raised)
         if kind == 'capture' and not os.path.exists(os.path.join('scripts', '__snapshot__.ls')):
             return ('capture-writes-no-file', '')
+    # what the controller reports as running is what executes (threads started and not finished)
+    alive_after = s.alive_names()
+    for n in table:
+        name = html.escape(n)
+        if bool(jc.is_running(name)) != (name in alive_after):
+            return ('controller-misreports-a-running-script', '%r: reported running=%r, thread alive=%r (after %r)' % (
+                n, jc.is_running(name), name in alive_after, ev))
+    if len(alive_after) != len(set(alive_after)):
+        return ('running-script-started-again', 'two live threads for %r after %r' % (
+            sorted(x for x in alive_after if alive_after.count(x) > 1), ev))
     # whatever reached a template must be escaped
     for tname, ctx in flaskstub.CALLS[ncalls:]:
         controls = list(ctx.get('scripts', [])) + ([ctx['script']] if ctx.get('script') is not None else [])
